@@ -13,7 +13,7 @@ from __future__ import annotations
 import base64
 from typing import Any
 
-from mc import engine, httpseam, sched
+from mc import c14_extra, engine, httpseam, sched
 from mc.runner import Result
 
 ID = "C14"
@@ -22,18 +22,29 @@ ENGINES = ["E2", "E3"]
 RULE = (
     "(a) work item = (set of <=2 configuration atoms, phase); one engine run; every logged request is judged; distinct = distinct "
     "(item, request); non-trivial = a request to which at least one atom applies; (b) work item = (provider kind, threads, keys, "
-    "pre-emption bound, clock jumps); every schedule is executed on the real provider object; states = scheduler states"
+    "pre-emption bound, clock jumps); every schedule is executed on the real provider object; states = scheduler states; "
+    "review round 2 (mc/c14_extra.py): (a2) engine runs with atom pairs meeting in one container, both generation modes, all "
+    "built-in checks on a document with security schemes (check-derived probes are recognised through the recorder and exempt), "
+    "security parameters off, 2 workers, header-name letter case, further provider registrations, provider.get call log; "
+    "(t) the Python API with test-scope auth / override / call headers over the requests, WSGI and ASGI transports; (g) a "
+    "GraphQL schema; (b) also the provider registered through AuthStorage and driven by AuthStorage.set, falsy cache keys, "
+    "an underlying get() that fails once, a clock jump that stays inside the refresh interval"
 )
 BOUNDS = {
-    "quick": {"atom_set_size": 2, "preemptions": 2, "threads": [2, 3], "clock_jumps": 1, "max_exec_per_item": 12000},
-    "thorough": {"atom_set_size": 2, "preemptions": 3, "threads": [2, 3], "clock_jumps": 1, "max_exec_per_item": 200000},
+    "quick": {"atom_set_size": 2, "preemptions": 2, "threads": [2, 3], "clock_jumps": 1, "max_exec_per_item": 12000,
+              "round2": "engine: 24 further atoms, 8 pairs, modes {positive, both}, checks {default, all}, workers {1, 2}; python api: 3 transports x 19 atom sets; graphql: 8; provider variants: 2 threads"},
+    "thorough": {"atom_set_size": 2, "preemptions": 3, "threads": [2, 3], "clock_jumps": 1, "max_exec_per_item": 200000,
+                 "round2": "as quick (provider variants: 2 threads, 3 pre-emptions)"},
 }
 BUDGET_S = {"quick": 140, "thorough": 3300}
 CHUNK = 2
 ASSUMPTIONS = [
-    "positive generation mode: negative/coverage cases that deliberately drop or duplicate a parameter are not part of this check",
-    "requests issued by the `ignored_auth` check itself (credentials stripped on purpose) are exempt, recognised as recorder nodes with a parent and no transition",
-    "when both a schema-level and a global auth provider are registered only the schema-level one is judged (scope precedence: the more specific storage shadows the global one)",
+    "part (a) items use the positive generation mode; the a2 items with modes=both also judge negative and unexpected-method cases (the user's value must be on them as well)",
+    "requests issued by the `ignored_auth` check itself (credentials stripped on purpose) are exempt as a whole, recognised as recorder nodes with a parent and no transition",
+    "when both a schema-level and a global auth provider are registered only the schema-level one is judged (scope precedence: the more specific storage shadows the global one); likewise test scope over schema scope, and an explicit --auth replaces the global provider (engine/core.py)",
+    "two user-supplied values for the same header (e.g. --header Authorization with --auth, a provider writing a configured header) are not ranked",
+    "an override applies to an operation that declares the parameter in that location: exact name for query/cookie/path, case-insensitive name for headers; a name declared elsewhere or nowhere claims nothing (the run must only not fail)",
+    "provider.get call log: at most one call per cache key and engine run for a caching provider (default refresh interval 300 s, a run takes under a second); `set_from_requests` with the WSGI transport is not judged (a requests auth object)",
     "(b) scheduling points: lock acquire, every timer() read and the underlying provider's get(); code between them is atomic",
 ]
 TECHNIQUE = "exhaustive configuration enumeration with real engine runs, plus stateless exploration of all thread schedules of the real caching auth provider under a virtual clock"
@@ -113,6 +124,17 @@ def items(tier: str, seed: int) -> list[dict]:
             for interval in (10, 0):
                 out.append({"part": "b", "keyed": keyed, "threads": threads, "calls": 2, "p": b["preemptions"] if threads == 2 else max(1, b["preemptions"] - 1),
                             "e": b["clock_jumps"], "interval": interval})
+    # review round 2: the provider as registered through AuthStorage and driven through AuthStorage.set; falsy cache keys;
+    # the underlying get() failing once; a clock jump that stays INSIDE the refresh interval (kept small: 2 threads)
+    for threads in b["threads"][:1]:
+        common = {"part": "b", "threads": threads, "calls": 2, "p": b["preemptions"], "e": b["clock_jumps"], "interval": 10}
+        for keyed in (False, True):
+            out.append({**common, "keyed": keyed, "entry": "storage"})
+            out.append({**common, "keyed": keyed, "fail_first": True})
+            out.append({**common, "keyed": keyed, "jump": "inside"})
+        out.append({**common, "keyed": True, "keys": [0, ""]})
+        out.append({**common, "keyed": True, "keys": [0, ""], "entry": "storage", "interval": 0})
+    out.extend(c14_extra.extra_items(tier))
     return out
 
 
@@ -278,8 +300,17 @@ def check_b(item: dict, tier: str) -> Result:
 
     res = Result()
     interval = item["interval"]
-    keys = ["k1", "k2"]
+    keys = item.get("keys") or ["k1", "k2"]
+    entry = item.get("entry", "direct")  # "storage": registered through AuthStorage, driven through AuthStorage.set
+    fail_first = item.get("fail_first", False)  # the first call of the underlying get() raises
+    jump = item.get("jump", "past")  # "inside": the clock moves, but not past the validity of a token fetched before
     stats = sched.ExploreStats()
+
+    class InjectedError(Exception):
+        pass
+
+    class _Case(dict):  # AuthStorage.set marks the case (`_has_explicit_auth`): a dict that takes attributes
+        pass
 
     def body(sch: sched.Scheduler) -> dict:
         ns = sch.threading_namespace()
@@ -291,33 +322,61 @@ def check_b(item: dict, tier: str) -> Result:
         def timer() -> float:
             sch.point("timer")
             if item["e"] and not clock["jumped"] and sch.me() is not None:
-                if sch.env_choice("clock", ["stay", "jump_past_expiry"]) == 1:
+                if sch.env_choice("clock", ["stay", "jump_past_expiry" if jump == "past" else "jump_inside_interval"]) == 1:
                     clock["jumped"] = True
-                    clock["now"] += max(interval, 1) + 1
+                    clock["now"] += max(interval, 1) + 1 if jump == "past" else interval - 1
             return clock["now"]
+
+        state = {"failed": False}
 
         class Underlying:
             def get(self, case: Any, context: Any) -> str:
                 me = sch.me()
                 key = case["key"] if item["keyed"] else "single"
                 started = clock["now"]
+                if fail_first and not state["failed"]:
+                    state["failed"] = True
+                    sch.point("provider.get")
+                    raise InjectedError("token endpoint unavailable")
                 fetches.append((started, key, me.tid if me else -1))
                 sch.point("provider.get")
                 return f"token:{key}:{len(fetches)}"
 
             def set(self, case: Any, data: Any, context: Any) -> None:
-                pass
+                if entry == "storage":
+                    sch.point("provider.set")
+                    case["applied"] = data
 
-        if item["keyed"]:
-            provider: Any = KeyedCachingAuthProvider(Underlying(), refresh_interval=interval, timer=timer, _refresh_lock=ns.Lock(),
-                                                     cache_by_key=lambda case, ctx: case["key"])
+        storage: Any = None
+        if entry == "storage":
+            from schemathesis.auths import AuthStorage
+
+            storage = AuthStorage()
+            kwargs: dict[str, Any] = {"refresh_interval": interval}
+            if item["keyed"]:
+                kwargs["cache_by_key"] = lambda case, ctx: case["key"]
+            storage.register(**kwargs)(Underlying)
+            provider: Any = storage.providers[0]
+            provider.timer = timer
+            provider._refresh_lock = ns.Lock()
+        elif item["keyed"]:
+            provider = KeyedCachingAuthProvider(Underlying(), refresh_interval=interval, timer=timer, _refresh_lock=ns.Lock(),
+                                                cache_by_key=lambda case, ctx: case["key"])
         else:
             provider = CachingAuthProvider(Underlying(), refresh_interval=interval, timer=timer, _refresh_lock=ns.Lock())
 
         def worker(i: int) -> None:
             for n in range(item["calls"]):
                 key = keys[(i + n) % 2] if item["keyed"] else "single"
-                data = provider.get({"key": key}, None)
+                case = _Case(key=key)
+                try:
+                    if storage is not None:
+                        storage.set(case, None)
+                        data = case.get("applied")
+                    else:
+                        data = provider.get(case, None)
+                except InjectedError:
+                    data = "<injected error>"
                 me = sch.me()
                 results.append((me.tid if me else -1, key, data, clock["now"]))
 
@@ -333,6 +392,8 @@ def check_b(item: dict, tier: str) -> Result:
         current_item = item if "replay_choices" in item else {**item, "replay_choices": run.choices}
         out = run.outcome
         base = {"part": "b", "keyed": item["keyed"], "interval_zero": interval == 0}
+        if entry != "direct" or fail_first or jump != "past" or "keys" in item:
+            base |= {"entry": entry, "fail_first": fail_first, "jump": jump, "falsy_keys": "keys" in item}
         schedule = [f"{i}:T{p.thread}:{p.desc}->{p.labels[p.chosen]}" for i, p in enumerate(run.trace) if p.chosen]
         if run.aborted or out is None:
             res.violation({**base, "kind": f"no_termination_{run.aborted}"}, {"item": item, "schedule": schedule}, current_item)
@@ -351,9 +412,16 @@ def check_b(item: dict, tier: str) -> Result:
                 if interval > 0 and b < a + interval:
                     res.violation({**base, "kind": "token_fetched_twice_within_refresh_interval"}, detail | {"key": key, "times": [a, b]}, current_item)
                     break
+        injected = 0
         for tid, key, data, now in out["results"]:
+            if fail_first and data == "<injected error>":
+                injected += 1  # the caller whose fetch failed sees the failure
+                continue
             if not isinstance(data, str) or not data.startswith(f"token:{key}:"):
                 res.violation({**base, "kind": "caller_got_token_of_another_key_or_none"}, detail | {"key": key, "data": data}, current_item)
+        if fail_first and injected != 1:
+            # the underlying get() raised exactly once: exactly one caller may see that error, it must not be kept and served again
+            res.violation({**base, "kind": "provider_error_seen_by_other_than_one_caller"}, detail | {"callers_with_error": injected}, current_item)
         if len(out["results"]) != item["threads"] * item["calls"]:
             res.violation({**base, "kind": "caller_did_not_finish"}, detail, current_item)
         res.outcomes.add((len(out["fetches"]), out["jumped"]))
@@ -376,6 +444,12 @@ def _run_replay(item: dict, tier: str) -> Result:
 def check_item(item: dict, tier: str) -> Result:
     if item["part"] == "a":
         return check_a(item, tier)
+    if item["part"] == "a2":
+        return c14_extra.check_a2(item, tier)
+    if item["part"] == "t":
+        return c14_extra.check_t(item, tier)
+    if item["part"] == "g":
+        return c14_extra.check_g(item, tier)
     if "replay_choices" in item:
         # replay one recorded schedule
         choices = item["replay_choices"]
@@ -398,4 +472,5 @@ def vacuity(total: Result, tier: str) -> list[str]:
         out.append("fewer than 50 distinct requests / schedules judged")
     if not total.counters.get("runs_with_link_derived_requests"):
         out.append("no stateful run followed a link (link-derived requests never judged)")
+    out += c14_extra.vacuity(total, tier)
     return out
